@@ -113,6 +113,16 @@ Qed.
 Lemma tkey_lt_ts a b : tkey_lt a b = true -> ev_ts b <= ev_ts a.
 Proof. rewrite tkey_lt_spec. lia. Qed.
 
+Lemma tkey_order a b c :
+  tkey_lt a a = false /\
+  (tkey_lt a b = true -> tkey_lt b c = true -> tkey_lt a c = true) /\
+  (tkey_lt a b = false -> tkey_lt b a = false -> ev_ts a = ev_ts b /\ ev_id a = ev_id b) /\
+  (tkey_lt a b = true -> ev_ts b <= ev_ts a).
+Proof.
+  split; [apply tkey_lt_irrefl|]. split; [apply tkey_lt_trans|].
+  split; [apply tkey_lt_total | apply tkey_lt_ts].
+Qed.
+
 Lemma tkey_lt_keq_l a a' b : keq a a' -> tkey_lt a b = tkey_lt a' b.
 Proof. unfold tkey_lt. intros [-> ->]. reflexivity. Qed.
 
@@ -236,9 +246,19 @@ Proof.
       * now apply C.
 Qed.
 
-(** functional ids give functional tree keys *)
+(** pairwise distinct (created_at, id) keys: two events of the list with the
+    same tree key are the same event.  Functional ids give this. *)
+Definition keys_functional (l : list event) : Prop :=
+  forall a b, In a l -> In b l -> keq a b -> a = b.
+
 Lemma idsf_keq l a b : ids_functional l -> In a l -> In b l -> keq a b -> a = b.
 Proof. intros F Ha Hb [_ E]. now apply F. Qed.
+
+Lemma idsf_keyf l : ids_functional l -> keys_functional l.
+Proof. intros F a b. now apply idsf_keq. Qed.
+
+Lemma keyf_incl l l' : keys_functional l -> incl l' l -> keys_functional l'.
+Proof. intros F I a b Ha Hb. apply F; now apply I. Qed.
 
 Lemma idsf_incl l l' : ids_functional l -> incl l' l -> ids_functional l'.
 Proof. intros F I a b Ha Hb. apply F; now apply I. Qed.
@@ -303,18 +323,23 @@ Proof.
 Qed.
 
 (** cutting after [n] elements commutes with insertion *)
+Lemma firstn_cons_firstn {A} n (y : A) r : firstn n (y :: firstn n r) = firstn n (y :: r).
+Proof.
+  destruct n as [|k]; [reflexivity|].
+  rewrite !firstn_cons. f_equal. rewrite firstn_firstn. f_equal. lia.
+Qed.
+
 Lemma firstn_tree_set x : forall n F,
   firstn n (tree_set x F) = firstn n (tree_set x (firstn n F)).
 Proof.
   induction n as [|n IH]; intro F; [reflexivity|].
   destruct F as [|y r]; [reflexivity|].
-  cbn [firstn tree_set].
+  rewrite (firstn_cons n y r). cbn [tree_set].
   destruct (tkey_lt x y).
-  - cbn [firstn]. f_equal. destruct n as [|k]; [reflexivity|].
-    cbn [firstn]. f_equal. rewrite firstn_firstn. f_equal. lia.
+  - rewrite !firstn_cons. f_equal. symmetry. apply firstn_cons_firstn.
   - destruct (tkey_eq x y).
-    + cbn [firstn]. f_equal. rewrite firstn_firstn. f_equal. lia.
-    + cbn [firstn]. f_equal. apply IH.
+    + rewrite !firstn_cons. f_equal. rewrite firstn_firstn. f_equal. lia.
+    + rewrite !firstn_cons. f_equal. apply IH.
 Qed.
 
 (** folding insertions *)
@@ -327,7 +352,7 @@ Proof.
   apply IH. now apply tree_set_sorted.
 Qed.
 
-Lemma fold_tset_In U : ids_functional U -> forall l acc,
+Lemma fold_tset_In U : keys_functional U -> forall l acc,
   incl l U -> incl acc U ->
   forall y, In y (fold_tset l acc) <-> In y l \/ In y acc.
 Proof.
@@ -335,7 +360,7 @@ Proof.
   - intuition.
   - assert (Hx : In x U) by (apply Il; now left).
     assert (Hk : forall z, In z acc -> keq x z -> z = x).
-    { intros z Hz K. symmetry. apply (idsf_keq U); auto. }
+    { intros z Hz K. symmetry. apply (FU x z); auto. }
     rewrite IH.
     + rewrite (tree_set_In x acc Hk). intuition.
     + intros z Hz. apply Il. now right.
@@ -344,7 +369,7 @@ Qed.
 
 (** the result of inserting any list into a sorted accumulator is the
     sorted form of the union — independent of the insertion order *)
-Lemma fold_tset_filter T : tsorted T -> ids_functional T -> forall l acc,
+Lemma fold_tset_filter T : tsorted T -> keys_functional T -> forall l acc,
   incl l T -> incl acc T -> tsorted acc ->
   fold_tset l acc = filter (fun x => eset_mem x l || eset_mem x acc) T.
 Proof.
@@ -366,11 +391,10 @@ Qed.
 
 Lemma eset_mem_false x s : eset_mem x s = false <-> ~ In x s.
 Proof.
-  rewrite <- eset_mem_In. destruct (eset_mem x s); split; intro H; try congruence.
-  exfalso. now apply H.
+  rewrite <- eset_mem_In. destruct (eset_mem x s); split; intro H; congruence.
 Qed.
 
-Lemma fold_tset_sorted_id l : tsorted l -> ids_functional l -> fold_tset l [] = l.
+Lemma fold_tset_sorted_id l : tsorted l -> keys_functional l -> fold_tset l [] = l.
 Proof.
   intros S F. apply tsorted_ext.
   - apply fold_tset_sorted. constructor.
@@ -379,7 +403,7 @@ Proof.
 Qed.
 
 Lemma fold_tset_perm U l l' acc :
-  ids_functional U -> incl l U -> incl acc U -> tsorted acc -> Permutation l l' ->
+  keys_functional U -> incl l U -> incl acc U -> tsorted acc -> Permutation l l' ->
   fold_tset l acc = fold_tset l' acc.
 Proof.
   intros FU Il Ia Sa P.
@@ -393,7 +417,7 @@ Proof.
 Qed.
 
 Lemma tree_set_comm a b t :
-  ids_functional (a :: b :: t) -> tsorted t ->
+  keys_functional (a :: b :: t) -> tsorted t ->
   tree_set a (tree_set b t) = tree_set b (tree_set a t).
 Proof.
   intros F S.
@@ -402,4 +426,239 @@ Proof.
   - intros z [<-|[<-|[]]]; simpl; auto.
   - intros z Hz. now do 2 right.
   - apply perm_swap.
+Qed.
+
+(* ------------------------------------------------------------------ *)
+(** * Matching with a filter that has no tag condition never panics
+      (this is the only way the cache calls [Match]) *)
+
+Lemma match_impl_notags e f : f_tags f = None -> match_impl e f = Ok (match_specb e f).
+Proof.
+  intro Ht. unfold match_impl, match_specb, tags_part.
+  rewrite g_ids_reject_spec, g_kinds_reject_spec, g_authors_reject_spec, !reject_clause.
+  rewrite Ht, since_clause, until_clause. cbn [opt_holdsb].
+  destruct (opt_holdsb (f_ids f) (mem_str (ev_id e))); cbn [negb andb]; [|reflexivity].
+  destruct (opt_holdsb (f_kinds f) (mem_Z (ev_kind e))); cbn [negb andb].
+  2: { destruct (opt_holdsb (f_authors f) (mem_str (ev_pk e))); reflexivity. }
+  destruct (opt_holdsb (f_authors f) (mem_str (ev_pk e))); cbn [negb andb]; [|reflexivity].
+  destruct (opt_holdsb (f_since f) (fun s => s <=? ev_ts e)); cbn [negb andb]; [|reflexivity].
+  destruct (opt_holdsb (f_until f) (fun u => ev_ts e <=? u)); reflexivity.
+Qed.
+
+(* ------------------------------------------------------------------ *)
+(** * The ordered scan *)
+
+Lemma lm_done_mk f c :
+  lm_done (mkLM f c) = match f_limit f with Some L => L <=? c | None => false end.
+Proof. unfold lm_done. cbn [lm_f lm_cnt]. rewrite g_done_spec. destruct (f_limit f); reflexivity. Qed.
+
+Lemma lm_limit_match_mk f c x b : match_impl x f = Ok b ->
+  lm_limit_match (mkLM f c) x = Ok (if b then mkLM f (c + 1) else mkLM f c, b).
+Proof. intro H. unfold lm_limit_match. cbn [lm_f lm_cnt]. rewrite H. destruct b; reflexivity. Qed.
+
+(** what a limit leaves of a list when [c] have been taken already *)
+Definition lim_take (lim : option Z) (c : Z) (l : list event) : list event :=
+  match lim with None => l | Some L => firstn (Z.to_nat (L - c)) l end.
+
+Lemma fold_tset_cons x l acc : fold_tset (x :: l) acc = fold_tset l (tree_set x acc).
+Proof. reflexivity. Qed.
+
+(** the scan inserts exactly the first [limit] matching elements *)
+Lemma scan_loop_spec f : forall t,
+  (forall x, In x t -> match_impl x f = Ok (match_specb x f)) ->
+  forall c acc, scan_loop t (mkLM f c) acc =
+    Ok (fold_tset (lim_take (f_limit f) c (filter (fun x => match_specb x f) t)) acc).
+Proof.
+  induction t as [|x t IH]; intros Hm c acc.
+  - cbn [scan_loop filter]. unfold lim_take. destruct (f_limit f); [rewrite firstn_nil|]; reflexivity.
+  - assert (Hm' : forall y, In y t -> match_impl y f = Ok (match_specb y f)).
+    { intros y Hy. apply Hm. now right. }
+    cbn [scan_loop]. rewrite lm_done_mk.
+    rewrite (lm_limit_match_mk f c x _ (Hm x (or_introl eq_refl))).
+    cbn [filter].
+    destruct (f_limit f) as [L|] eqn:EL.
+    + destruct (L <=? c) eqn:D.
+      * apply Z.leb_le in D. unfold lim_take.
+        replace (Z.to_nat (L - c)) with 0%nat by lia. reflexivity.
+      * apply Z.leb_gt in D. destruct (match_specb x f) eqn:M.
+        -- rewrite (IH Hm'); rewrite ?EL. unfold lim_take.
+           replace (Z.to_nat (L - c)) with (S (Z.to_nat (L - (c + 1)))) by lia.
+           reflexivity.
+        -- rewrite (IH Hm'); rewrite ?EL. reflexivity.
+    + destruct (match_specb x f); rewrite (IH Hm'); rewrite ?EL; reflexivity.
+Qed.
+
+(* ------------------------------------------------------------------ *)
+(** * Event sets (Go: map[*Event]bool) *)
+
+Lemma eset_add_In e s x : In x (eset_add e s) <-> x = e \/ In x s.
+Proof.
+  unfold eset_add. destruct (eset_mem e s) eqn:M.
+  - apply eset_mem_In in M. split; [now right | intros [->|H]; assumption].
+  - rewrite in_app_iff. simpl. intuition.
+Qed.
+
+Lemma eset_add_NoDup e s : NoDup s -> NoDup (eset_add e s).
+Proof.
+  intro N. unfold eset_add. destruct (eset_mem e s) eqn:M; [assumption|].
+  apply eset_mem_false in M.
+  apply (Permutation_NoDup (Permutation_cons_append s e)). now constructor.
+Qed.
+
+Lemma eset_union_In : forall b a x, In x (eset_union a b) <-> In x a \/ In x b.
+Proof.
+  unfold eset_union. induction b as [|y b IH]; intros a x; simpl.
+  - tauto.
+  - rewrite IH, eset_add_In. intuition.
+Qed.
+
+Lemma eset_union_NoDup : forall b a, NoDup a -> NoDup (eset_union a b).
+Proof.
+  unfold eset_union. induction b as [|y b IH]; intros a N; simpl; [assumption|].
+  apply IH. now apply eset_add_NoDup.
+Qed.
+
+Lemma eset_inter_In a b x : In x (eset_inter a b) <-> In x a /\ In x b.
+Proof. unfold eset_inter. now rewrite filter_In, eset_mem_In. Qed.
+
+Lemma eset_inter_NoDup a b : NoDup a -> NoDup (eset_inter a b).
+Proof. apply NoDup_filter. Qed.
+
+(** successive intersection *)
+Lemma fold_inter_In : forall l m x,
+  In x (fold_left eset_inter l m) <-> In x m /\ forall s, In s l -> In x s.
+Proof.
+  induction l as [|a l IH]; intros m x; simpl.
+  - intuition.
+  - rewrite IH, eset_inter_In. split.
+    + intros [[Hm Ha] Hl]. split; [assumption|]. intros s [<-|Hs]; auto.
+    + intros [Hm Hl]. split; [split|]; auto.
+Qed.
+
+Lemma fold_inter_NoDup : forall l m, NoDup m -> NoDup (fold_left eset_inter l m).
+Proof.
+  induction l as [|a l IH]; intros m N; simpl; [assumption|].
+  apply IH. now apply eset_inter_NoDup.
+Qed.
+
+Lemma inter_all_spec l c : inter_all l = Some c ->
+  forall x, In x c <-> forall s, In s l -> In x s.
+Proof.
+  destruct l as [|m rest]; simpl; [discriminate|].
+  intros E x. inversion E; subst c; clear E.
+  rewrite fold_inter_In. split.
+  - intros [Hm Hr] s [<-|Hs]; [assumption|]. apply Hr. now apply -> in_rev.
+  - intro H. split; [apply H; now left|]. intros s Hs. apply H. right. now apply in_rev.
+Qed.
+
+Lemma inter_all_NoDup l c : inter_all l = Some c -> (forall s, In s l -> NoDup s) -> NoDup c.
+Proof.
+  destruct l as [|m rest]; simpl; [discriminate|].
+  intros E N. inversion E; subst c. apply fold_inter_NoDup. apply N. now left.
+Qed.
+
+Lemma inter_all_none l : inter_all l = None -> l = [].
+Proof. destruct l; simpl; [reflexivity | discriminate]. Qed.
+
+(** the intersection does not depend on the order in which the condition
+    sets are taken *)
+Lemma inter_all_perm l l' c c' :
+  Permutation l l' -> inter_all l = Some c -> inter_all l' = Some c' ->
+  forall x, In x c <-> In x c'.
+Proof.
+  intros P E E' x. rewrite (inter_all_spec l c E), (inter_all_spec l' c' E').
+  split; intros H s Hs; apply H.
+  - eapply Permutation_in; [apply Permutation_sym; exact P | exact Hs].
+  - eapply Permutation_in; eauto.
+Qed.
+
+(** sorting by size only permutes *)
+Lemma insert_by_len_perm s : forall l, Permutation (insert_by_len s l) (s :: l).
+Proof.
+  induction l as [|x l IH]; simpl; [apply Permutation_refl|].
+  destruct (Nat.leb (length s) (length x)); [apply Permutation_refl|].
+  eapply perm_trans; [apply perm_skip; exact IH | apply perm_swap].
+Qed.
+
+Lemma sort_by_len_perm : forall l, Permutation (sort_by_len l) l.
+Proof.
+  induction l as [|a l IH]; simpl; [constructor|].
+  eapply perm_trans; [apply insert_by_len_perm | now apply perm_skip].
+Qed.
+
+(* ------------------------------------------------------------------ *)
+(** * Bounded insertion: any enumeration order of the candidates yields the
+      top-[limit] of those passing the matcher *)
+
+Lemma bounded_insert_spec T m limit :
+  tsorted T -> keys_functional T ->
+  (forall x, In x T -> match_impl x m = Ok (match_specb x m)) ->
+  forall cands P acc cnt,
+    NoDup cands -> incl cands T -> (forall x, In x cands -> P x = false) ->
+    acc = firstn (Z.to_nat limit) (filter (fun y => P y && match_specb y m) T) ->
+    cnt = Z.of_nat (length acc) ->
+    bounded_insert cands m limit acc cnt =
+      Ok (firstn (Z.to_nat limit)
+                 (filter (fun y => (P y || eset_mem y cands) && match_specb y m) T)).
+Proof.
+  intros ST FT Hm. induction cands as [|x rest IH]; intros P acc cnt ND Inc HP Hacc Hcnt.
+  - cbn [bounded_insert]. subst acc. do 2 f_equal. apply filter_ext. intro y.
+    cbn. now rewrite orb_false_r.
+  - subst cnt. assert (HxT : In x T) by (apply Inc; now left).
+    apply NoDup_cons_iff in ND as [Hxr ND'].
+    set (L := Z.to_nat limit).
+    set (P' := fun y => P y || event_eqb y x).
+    assert (Hfin : filter (fun y => (P' y || eset_mem y rest) && match_specb y m) T =
+                   filter (fun y => (P y || eset_mem y (x :: rest)) && match_specb y m) T).
+    { apply filter_ext. intro y. unfold P'. cbn [eset_mem existsb]. now rewrite orb_assoc. }
+    assert (Inc' : incl rest T) by (intros z Hz; apply Inc; now right).
+    assert (HP' : forall z, In z rest -> P' z = false).
+    { intros z Hz. unfold P'. rewrite (HP z (or_intror Hz)). simpl.
+      destruct (event_eqb z x) eqn:E; [|reflexivity].
+      apply event_eqb_eq in E. subst z. contradiction. }
+    cbn [bounded_insert]. rewrite (Hm x HxT).
+    destruct (match_specb x m) eqn:Mx.
+    + set (F := filter (fun y => P y && match_specb y m) T).
+      set (F' := filter (fun y => P' y && match_specb y m) T).
+      assert (HxF : ~ In x F).
+      { unfold F. rewrite filter_In. intros [_ H]. rewrite (HP x (or_introl eq_refl)) in H. discriminate. }
+      assert (HkF : forall z, In z F -> keq x z -> z = x).
+      { intros z Hz K. apply filter_In in Hz as [Hz _]. symmetry. now apply (FT x z). }
+      assert (HF' : F' = tree_set x F).
+      { apply tsorted_ext.
+        - now apply tsorted_filter.
+        - apply tree_set_sorted. now apply tsorted_filter.
+        - intro y. rewrite (tree_set_In x F HkF). unfold F', F, P'.
+          rewrite !filter_In, !andb_true_iff, orb_true_iff, event_eqb_eq. split.
+          + intros [Hy [[Hp| ->] Hmy]]; [right|left]; auto.
+          + intros [->|[Hy [Hp Hmy]]]; auto. }
+      assert (Hsub : forall z, In z acc -> In z F).
+      { intros z Hz. rewrite Hacc in Hz. now apply firstn_incl in Hz. }
+      assert (Hlen : length (tree_set x acc) = S (length acc)).
+      { apply tree_set_length_new. intros z Hz K. apply HxF.
+        rewrite <- (HkF z (Hsub z Hz) K). now apply Hsub. }
+      assert (Hcut : firstn L (tree_set x acc) = firstn L F').
+      { rewrite Hacc, HF'. symmetry. apply firstn_tree_set. }
+      assert (Hle : (length acc <= L)%nat).
+      { rewrite Hacc. apply firstn_le_length. }
+      destruct (g_index_over_limit (Z.of_nat (length acc) + 1) limit) eqn:G.
+      * apply g_index_over_limit_spec in G.
+        assert (HL : length acc = L) by (unfold L in *; lia).
+        rewrite (IH P' (removelast (tree_set x acc)) (Z.of_nat (length acc) + 1 - 1) ND' Inc' HP').
+        -- now rewrite Hfin.
+        -- rewrite removelast_firstn_len, Hlen. cbn [pred]. rewrite HL. exact Hcut.
+        -- rewrite removelast_firstn_len, Hlen. cbn [pred]. rewrite firstn_length, Hlen. lia.
+      * assert (G' : ~ limit < Z.of_nat (length acc) + 1).
+        { intro C. apply g_index_over_limit_spec in C. congruence. }
+        rewrite (IH P' (tree_set x acc) (Z.of_nat (length acc) + 1) ND' Inc' HP').
+        -- now rewrite Hfin.
+        -- change (tree_set x acc = firstn L F'). rewrite <- Hcut. symmetry. apply firstn_all2. rewrite Hlen. unfold L. lia.
+        -- rewrite Hlen. lia.
+    + rewrite (IH P' acc (Z.of_nat (length acc)) ND' Inc' HP').
+      * now rewrite Hfin.
+      * rewrite Hacc. f_equal. apply filter_ext_in. intros y Hy. unfold P'.
+        destruct (event_eqb y x) eqn:E.
+        -- apply event_eqb_eq in E. subst y. rewrite Mx. now rewrite !andb_false_r.
+        -- now rewrite orb_false_r.
+      * reflexivity.
 Qed.
